@@ -7,7 +7,7 @@
    lemma over the 56 instructions.  Statements are proved by induction on the statement tree
    (a nested induction on the item list for `for`), expressions by induction on the expression;
    a library of templates by induction on the library list. *)
-From TeraV Require Import Model.Value Model.Instr Model.VFormat Model.VM Model.World0 Spec.Stmt Model.Compile Gen.Tables.
+From TeraV Require Import Model.Value Model.Instr Model.VFormat Model.Slice Model.VM Model.World0 Spec.Stmt Model.Compile Gen.Tables.
 Local Open Scope nat_scope.
 
 (* ---------- small facts ---------- *)
@@ -37,6 +37,18 @@ Section ExprInd.
   Hypothesis Heq : forall a b, P a -> P b -> P (EEq a b).
   Hypothesis Ht : forall e n, P e -> P (ETest e n).
   Hypothesis Hf : forall e n kw, P e -> Forall (fun ke => P (snd ke)) kw -> P (EFilter e n kw).
+  Hypothesis Hbin : forall op a b, P a -> P b -> P (EBin op a b).
+  Hypothesis Hneg : forall e, P e -> P (ENeg e).
+  Hypothesis Htern : forall c a b, P c -> P a -> P b -> P (ETernary c a b).
+  Hypothesis Hao : forall e a, P e -> P (EAttrOpt e a).
+  Hypothesis Hsub : forall opt a b, P a -> P b -> P (ESub opt a b).
+  Hypothesis Hsl : forall opt e sa sb sc, P e ->
+    match sa with Some x => P x | None => True end ->
+    match sb with Some x => P x | None => True end ->
+    match sc with Some x => P x | None => True end -> P (ESlice opt e sa sb sc).
+  Hypothesis Hcall : forall n kw, Forall (fun ke => P (snd ke)) kw -> P (ECall n kw).
+  Hypothesis Harr : forall items, Forall (fun ie => P (snd ie)) items -> P (EArr items).
+  Hypothesis Hmap : forall es, Forall (fun ke => P (snd ke)) es -> P (EMap es).
   Fixpoint expr_ind' (e : expr) : P e :=
     match e with
     | EConst v => Hc v
@@ -55,6 +67,37 @@ Section ExprInd.
                | [] => Forall_nil _
                | ke :: t => Forall_cons ke (expr_ind' (snd ke)) (go t)
                end) kw)
+    | EBin op a b => Hbin op a b (expr_ind' a) (expr_ind' b)
+    | ENeg e => Hneg e (expr_ind' e)
+    | ETernary c a b => Htern c a b (expr_ind' c) (expr_ind' a) (expr_ind' b)
+    | EAttrOpt e a => Hao e a (expr_ind' e)
+    | ESub o a b => Hsub o a b (expr_ind' a) (expr_ind' b)
+    | ESlice o e a b c =>
+        Hsl o e a b c (expr_ind' e)
+            (match a as q return (match q return Prop with Some x => P x | None => True end) with Some x => expr_ind' x | None => I end)
+            (match b as q return (match q return Prop with Some x => P x | None => True end) with Some x => expr_ind' x | None => I end)
+            (match c as q return (match q return Prop with Some x => P x | None => True end) with Some x => expr_ind' x | None => I end)
+    | ECall n kw =>
+        Hcall n kw
+           ((fix go (l : list (str * expr)) : Forall (fun ke => P (snd ke)) l :=
+               match l with
+               | [] => Forall_nil _
+               | ke :: t => Forall_cons ke (expr_ind' (snd ke)) (go t)
+               end) kw)
+    | EArr items =>
+        Harr items
+           ((fix go (l : list (bool * expr)) : Forall (fun ie => P (snd ie)) l :=
+               match l with
+               | [] => Forall_nil _
+               | ie :: t => Forall_cons ie (expr_ind' (snd ie)) (go t)
+               end) items)
+    | EMap es =>
+        Hmap es
+           ((fix go (l : list (option value * expr)) : Forall (fun ke => P (snd ke)) l :=
+               match l with
+               | [] => Forall_nil _
+               | ke :: t => Forall_cons ke (expr_ind' (snd ke)) (go t)
+               end) es)
     end.
 End ExprInd.
 
@@ -242,6 +285,7 @@ Section Sim.
   (* kwargs names are string keys; filters do not look at the VM state *)
   Hypothesis H_key : forall k, w_as_key wd (VStr k false) = Some (KStr k true).
   Hypothesis H_fscope : forall n v k sc sc', w_filter wd n v k sc = w_filter wd n v k sc'.
+  Hypothesis H_fnscope : forall n k sc sc', w_function wd n k sc = w_function wd n k sc'.
 
   Let B := builtins_of_world wd.
 
@@ -386,6 +430,70 @@ Section Sim.
       R (S f) pc (mk b (y :: x :: stk) l sv c) o = R f (S pc) (mk b (VBool (w_eq wd x y) :: stk) l sv c) o.
     Proof. intros H. run1 H. Qed.
 
+    Lemma run_binop f pc b stk l sv c o x y op : nth_error ch pc = Some (binop_instr op) ->
+      R (S f) pc (mk b (y :: x :: stk) l sv c) o
+      = match binop_result wd op x y with
+        | ROk r => R f (S pc) (mk b (r :: stk) l sv c) o
+        | RErr _ => RFail ErrRender
+        end.
+    Proof.
+      intros H. cbn [run]. rewrite H. destruct op; cbn [binop_instr binop_result pop2 stack mk].
+      1-4,6-7: (destruct (negb (is_number x)); [reflexivity|]; destruct (negb (is_number y)); [reflexivity|];
+                match goal with |- context [w_math wd ?i ?u ?v] => destruct (w_math wd i u v) end; reflexivity).
+      - destruct (is_number x && is_number y); [|reflexivity]. destruct (w_math wd Plus x y); reflexivity.
+      - destruct (w_cmp wd x y); reflexivity.
+      - destruct (w_cmp wd x y); reflexivity.
+      - destruct (w_cmp wd x y); reflexivity.
+      - destruct (w_cmp wd x y); reflexivity.
+      - reflexivity.
+      - reflexivity.
+      - destruct (w_contains wd y x); reflexivity.
+    Qed.
+
+    Lemma run_Negative f pc b stk l sv c o v : nth_error ch pc = Some Negative ->
+      R (S f) pc (mk b (v :: stk) l sv c) o
+      = match neg_result wd v with
+        | ROk r => R f (S pc) (mk b (r :: stk) l sv c) o
+        | RErr _ => RFail ErrRender
+        end.
+    Proof.
+      intros H. cbn [run]. rewrite H. cbn [pop1 stack mk]. unfold neg_result.
+      destruct (w_negate wd v); reflexivity.
+    Qed.
+
+    Lemma run_LoadAttrOpt f pc b stk l sv c o v a : nth_error ch pc = Some (LoadAttrOpt a) ->
+      R (S f) pc (mk b (v :: stk) l sv c) o
+      = if is_undefined v || is_none v then R f (S pc) (mk b (VUndef :: stk) l sv c) o
+        else R f (S pc) (mk b ((match w_get_attr wd v a with Some x => x | None => VUndef end) :: stk) l sv c) o.
+    Proof.
+      intros H. cbn [run]. rewrite H. cbn [pop1 stack mk andb].
+      destruct (is_undefined v); cbn [orb]; [reflexivity|]. destruct (is_none v); reflexivity.
+    Qed.
+
+    Lemma run_Subscript f pc b stk l sv c o v i opt :
+      nth_error ch pc = Some (if opt : bool then BinarySubscriptOpt else BinarySubscript) ->
+      R (S f) pc (mk b (i :: v :: stk) l sv c) o
+      = match subscript wd opt v i with
+        | ROk r => R f (S pc) (mk b (r :: stk) l sv c) o
+        | RErr e => RFail e
+        end.
+    Proof.
+      intros H. cbn [run]. rewrite H. destruct opt; cbn [pop2 stack mk];
+        match goal with |- context [subscript wd ?q v i] => destruct (subscript wd q v i) end; reflexivity.
+    Qed.
+
+    Lemma run_Slice f pc b stk l sv c o v x y z opt :
+      nth_error ch pc = Some (if opt : bool then SliceOpt else Slice) ->
+      R (S f) pc (mk b (z :: y :: x :: v :: stk) l sv c) o
+      = match vm_slice opt v x y z with
+        | ROk r => R f (S pc) (mk b (r :: stk) l sv c) o
+        | RErr e => RFail e
+        end.
+    Proof.
+      intros H. cbn [run]. rewrite H. destruct opt; cbn [stack mk];
+        match goal with |- context [vm_slice ?q v x y z] => destruct (vm_slice q v x y z) end; reflexivity.
+    Qed.
+
     Lemma run_JumpIfFalseOrPop f pc b stk l sv c o v t : nth_error ch pc = Some (JumpIfFalseOrPop t) ->
       R (S f) pc (mk b (v :: stk) l sv c) o
       = if is_truthy v then R f (S pc) (mk b stk l sv c) o else R f t (mk b (v :: stk) l sv c) o.
@@ -500,6 +608,20 @@ Section Sim.
       intros H. cbn [run]. rewrite H. cbn [pop2 stack mk kwargs_of].
       rewrite (H_fscope n v m _ no_scope).
       destruct (w_filter wd n v m no_scope) as [[[r|e] safe]|]; reflexivity.
+    Qed.
+
+    Lemma run_CallFunction f pc b stk l sv c o m n : nth_error ch pc = Some (CallFunction n) ->
+      str_eqb n s_super = false ->
+      R (S f) pc (mk b (VMap m :: stk) l sv c) o
+      = match w_function wd n m no_scope with
+        | None => RFail ErrPanic
+        | Some (ROk r, safe) => R f (S pc) (mk b ((if safe then mark_safe r else r) :: stk) l sv c) o
+        | Some (RErr _, _) => RFail ErrRender
+        end.
+    Proof.
+      intros H Hs. unfold s_super in Hs. cbn [run]. rewrite H. cbn [pop1 stack mk]. rewrite Hs. cbn [kwargs_of].
+      rewrite (H_fnscope n m _ no_scope).
+      destruct (w_function wd n m no_scope) as [[[r|e] safe]|]; reflexivity.
     Qed.
 
     Lemma run_BuildMap f pc b stk l sv c o n items rest pairs : nth_error ch pc = Some (BuildMap n) ->
@@ -662,6 +784,26 @@ Section Sim.
       - eapply steps_fail1; [exact S1|]. intros fu. erewrite run_ApplyFilter by exact Hi2. rewrite Ef. reflexivity.
     Qed.
 
+    (* an optional operand of a slice: the expression, or the constant the compiler loads *)
+    Definition opt_code (pc : nat) (o : option expr) (d : value) : list instr :=
+      match o with Some x => compile_expr pc x | None => [LoadConst d] end.
+    Definition opt_ok (o : option expr) (d : value) : Prop :=
+      forall lex pc b stk l sv c o',
+        match o with Some x => wf_expr lex x | None => true end = true ->
+        (lex = true -> l <> []) -> Forall frame_ok l -> parent_ok b ->
+        code_at pc (opt_code pc o d) ->
+        match (match o with Some x => eval B x (absE b l sv) | None => ROk d end) with
+        | ROk v => steps pc (mk b stk l sv c) o' (pc + length (opt_code pc o d)) (mk b (v :: stk) l sv c) o'
+        | RErr _ => fails pc (mk b stk l sv c) o'
+        end.
+
+    Lemma opt_correct o d : match o with Some x => expr_ok x | None => True end -> opt_ok o d.
+    Proof.
+      intros H. destruct o as [x|]; [exact H|]. intros lex pc b stk l sv c o' _ _ _ _ Hc.
+      unfold opt_code in *. cbn [length]. apply code_at_cons in Hc as [Hi _].
+      replace (pc + 1) with (S pc) by lia. apply step1. intros fu. eapply run_LoadConst. exact Hi.
+    Qed.
+
     Lemma expr_correct : forall e, expr_ok e.
     Proof.
       induction e using expr_ind'; unfold expr_ok; intros lex pc b stk l sv c o Hwf Hlex Hfr Hpar Hc.
@@ -766,6 +908,129 @@ Section Sim.
         destruct (apply_filter B n v kws) as [r|x]; [|eapply steps_fails; [exact IHe|exact F]].
         eapply steps_trans; [exact IHe|]. rewrite !app_length. cbn [length].
         stepspos F.
+      - (* EBin *)
+        cbn [wf_expr compile_expr] in *. apply andb_prop in Hwf as [Hw1 Hw2].
+        apply code_at_app in Hc as [Hc1 Hc2]. apply code_at_app in Hc2 as [Hc2 Hc3].
+        apply code_at_cons in Hc3 as [Hi _].
+        specialize (IHe1 lex pc b stk l sv c o Hw1 Hlex Hfr Hpar Hc1). cbn [eval].
+        destruct (eval B e1 (absE b l sv)) as [v1|x]; [|exact IHe1].
+        specialize (IHe2 lex _ b (v1 :: stk) l sv c o Hw2 Hlex Hfr Hpar Hc2).
+        destruct (eval B e2 (absE b l sv)) as [v2|x]; [|eapply steps_fails; [exact IHe1|exact IHe2]].
+        change (b_binop B op v1 v2) with (binop_result wd op v1 v2).
+        rewrite !app_length. cbn [length].
+        destruct (binop_result wd op v1 v2) as [r|x] eqn:Er.
+        + eapply steps_trans; [exact IHe1|]. eapply steps_step; [exact IHe2|]. intros fu.
+          erewrite run_binop by exact Hi. rewrite Er. runpos.
+        + eapply steps_fails; [exact IHe1|]. eapply steps_fail1; [exact IHe2|]. intros fu.
+          erewrite run_binop by exact Hi. rewrite Er. reflexivity.
+      - (* ENeg *)
+        cbn [wf_expr compile_expr] in *. apply code_at_app in Hc as [Hc1 Hc2]. apply code_at_cons in Hc2 as [Hi _].
+        specialize (IHe lex pc b stk l sv c o Hwf Hlex Hfr Hpar Hc1). cbn [eval].
+        destruct (eval B e (absE b l sv)) as [v|x]; [|exact IHe].
+        change (b_neg B v) with (neg_result wd v).
+        rewrite app_length. cbn [length].
+        destruct (neg_result wd v) as [r|x] eqn:Er.
+        + eapply steps_step; [exact IHe|]. intros fu. erewrite run_Negative by exact Hi. rewrite Er. runpos.
+        + eapply steps_fail1; [exact IHe|]. intros fu. erewrite run_Negative by exact Hi. rewrite Er. reflexivity.
+      - (* ETernary *)
+        cbn [wf_expr compile_expr] in *. apply andb_prop in Hwf as [Hw Hw3]. apply andb_prop in Hw as [Hw1 Hw2].
+        apply code_at_app in Hc as [Hc1 Hc2]. apply code_at_app in Hc2 as [Hj1 Hc2]. apply code_at_cons in Hj1 as [Hj1 _].
+        apply code_at_app in Hc2 as [Hc2 Hc3]. apply code_at_app in Hc3 as [Hj2 Hc3]. apply code_at_cons in Hj2 as [Hj2 _].
+        cbn [length] in *.
+        specialize (IHe1 lex pc b stk l sv c o Hw1 Hlex Hfr Hpar Hc1). cbn [eval].
+        destruct (eval B e1 (absE b l sv)) as [v|x]; [|exact IHe1].
+        rewrite !app_length. cbn [length].
+        destruct (is_truthy v) eqn:Et.
+        + assert (S1 : steps pc (mk b stk l sv c) o (pc + length (compile_expr pc e1) + 1) (mk b stk l sv c) o).
+          { eapply steps_step; [exact IHe1|]. intros fu. erewrite run_PopJumpIfFalse by exact Hj1. rewrite Et. runpos. }
+          specialize (IHe2 lex _ b stk l sv c o Hw2 Hlex Hfr Hpar Hc2).
+          destruct (eval B e2 (absE b l sv)) as [v2|x]; [|eapply steps_fails; [exact S1|exact IHe2]].
+          eapply steps_trans; [exact S1|]. eapply steps_step; [exact IHe2|]. intros fu.
+          erewrite run_Jump by exact Hj2. runpos.
+        + assert (S1 : steps pc (mk b stk l sv c) o
+                         (pc + length (compile_expr pc e1) + 1 + length (compile_expr (pc + length (compile_expr pc e1) + 1) e2) + 1)
+                         (mk b stk l sv c) o).
+          { eapply steps_step; [exact IHe1|]. intros fu. erewrite run_PopJumpIfFalse by exact Hj1. rewrite Et. runpos. }
+          match type of Hc3 with code_at ?q _ =>
+            replace q with (pc + length (compile_expr pc e1) + 1 + length (compile_expr (pc + length (compile_expr pc e1) + 1) e2) + 1) in Hc3 by lia end.
+          specialize (IHe3 lex _ b stk l sv c o Hw3 Hlex Hfr Hpar Hc3).
+          destruct (eval B e3 (absE b l sv)) as [v3|x]; [|eapply steps_fails; [exact S1|exact IHe3]].
+          eapply steps_trans; [exact S1|]. stepspos IHe3.
+      - (* EAttrOpt *)
+        cbn [wf_expr compile_expr] in *. apply code_at_app in Hc as [Hc1 Hc2]. apply code_at_cons in Hc2 as [Hi _].
+        specialize (IHe lex pc b stk l sv c o Hwf Hlex Hfr Hpar Hc1). cbn [eval].
+        destruct (eval B e (absE b l sv)) as [v|x]; [|exact IHe].
+        rewrite app_length. cbn [length].
+        replace (pc + (length (compile_expr pc e) + 1)) with (S (pc + length (compile_expr pc e))) by lia.
+        destruct (is_undefined v || is_none v) eqn:Eu;
+          (eapply steps_step; [exact IHe|]; intros fu; erewrite run_LoadAttrOpt by exact Hi; rewrite Eu; reflexivity).
+      - (* ESub *)
+        cbn [wf_expr compile_expr] in *. apply andb_prop in Hwf as [Hw1 Hw2].
+        apply code_at_app in Hc as [Hc1 Hc2]. apply code_at_app in Hc2 as [Hc2 Hc3].
+        apply code_at_cons in Hc3 as [Hi _].
+        specialize (IHe1 lex pc b stk l sv c o Hw1 Hlex Hfr Hpar Hc1). cbn [eval].
+        destruct (eval B e1 (absE b l sv)) as [v1|x]; [|exact IHe1].
+        specialize (IHe2 lex _ b (v1 :: stk) l sv c o Hw2 Hlex Hfr Hpar Hc2).
+        destruct (eval B e2 (absE b l sv)) as [v2|x]; [|eapply steps_fails; [exact IHe1|exact IHe2]].
+        change (b_subscript B opt v1 v2) with (subscript wd opt v1 v2).
+        rewrite !app_length. cbn [length].
+        destruct (subscript wd opt v1 v2) as [r|x] eqn:Er.
+        + eapply steps_trans; [exact IHe1|]. eapply steps_step; [exact IHe2|]. intros fu.
+          erewrite run_Subscript by exact Hi. rewrite Er. runpos.
+        + eapply steps_fails; [exact IHe1|]. eapply steps_fail1; [exact IHe2|]. intros fu.
+          erewrite run_Subscript by exact Hi. rewrite Er. reflexivity.
+      - (* ESlice *)
+        cbn [wf_expr compile_expr] in Hwf, Hc |- *.
+        apply andb_prop in Hwf as [Hwf Hw4]. apply andb_prop in Hwf as [Hwf Hw3]. apply andb_prop in Hwf as [Hw1 Hw2].
+        apply code_at_app in Hc as [Hc1 Hc2]. apply code_at_app in Hc2 as [Hc2 Hc3]. apply code_at_app in Hc3 as [Hc3 Hc4].
+        apply code_at_app in Hc4 as [Hc4 Hc5]. apply code_at_cons in Hc5 as [Hi _].
+        specialize (IHe lex pc b stk l sv c o Hw1 Hlex Hfr Hpar Hc1). cbn [eval].
+        destruct (eval B e (absE b l sv)) as [v|x]; [|exact IHe].
+        pose proof (opt_correct sa VNone H lex _ b (v :: stk) l sv c o Hw2 Hlex Hfr Hpar Hc2) as K2.
+        unfold opt_code in K2.
+        destruct (match sa with Some x => eval B x (absE b l sv) | None => ROk VNone end) as [va|x];
+          [|eapply steps_fails; [exact IHe|exact K2]].
+        pose proof (opt_correct sb VNone H0 lex _ b (va :: v :: stk) l sv c o Hw3 Hlex Hfr Hpar Hc3) as K3.
+        unfold opt_code in K3.
+        assert (S2 := steps_trans _ _ _ _ _ _ _ _ _ IHe K2).
+        destruct (match sb with Some x => eval B x (absE b l sv) | None => ROk VNone end) as [vb|x];
+          [|eapply steps_fails; [exact S2|exact K3]].
+        pose proof (opt_correct sc (VInt I64 1) H1 lex _ b (vb :: va :: v :: stk) l sv c o Hw4 Hlex Hfr Hpar Hc4) as K4.
+        unfold opt_code in K4.
+        assert (S3 := steps_trans _ _ _ _ _ _ _ _ _ S2 K3).
+        destruct (match sc with Some x => eval B x (absE b l sv) | None => ROk (VInt I64 1) end) as [vc|x];
+          [|eapply steps_fails; [exact S3|exact K4]].
+        assert (S4 := steps_trans _ _ _ _ _ _ _ _ _ S3 K4).
+        change (b_slice B opt v va vb vc) with (vm_slice opt v va vb vc).
+        rewrite !app_length. cbn [length].
+        destruct (vm_slice opt v va vb vc) as [r|x] eqn:Er.
+        + eapply steps_step; [exact S4|]. intros fu. erewrite run_Slice by exact Hi. rewrite Er. runpos.
+        + eapply steps_fail1; [exact S4|]. intros fu. erewrite run_Slice by exact Hi. rewrite Er. reflexivity.
+      - (* ECall *)
+        cbn [wf_expr compile_expr] in *. apply andb_prop in Hwf as [Hs Hw]. apply negb_true_iff in Hs.
+        apply code_at_app in Hc as [Hc1 Hc2]. apply code_at_cons in Hc2 as [Hi1 Hc2].
+        apply code_at_cons in Hc2 as [Hi2 _].
+        pose proof (kws_ok kw H lex pc b stk l sv c o Hw Hlex Hfr Hpar Hc1) as K. cbn [eval].
+        destruct (eval_kws (fun x => eval B x (absE b l sv)) kw) as [kws|x]; [|exact K].
+        destruct K as [Hlen K].
+        assert (S1 : steps pc (mk b stk l sv c) o (S (pc + length (compile_kws compile_expr pc kw)))
+                           (mk b (VMap (kw_map wd kws) :: stk) l sv c) o).
+        { eapply steps_step; [exact K|]. intros fu.
+          apply run_BuildMap with (n := length kw) (items := flat_kws kws) (rest := stk)
+                                  (pairs := map (fun kv => (KStr (fst kv) true, snd kv)) kws);
+            [exact Hi1| |apply build_map_pairs_kws].
+          cbn [mk stack]. rewrite <- Hlen. apply pop_n_kws. }
+        change (b_function B n kws) with (w_function wd n (kw_map wd kws) no_scope).
+        rewrite app_length. cbn [length].
+        destruct (w_function wd n (kw_map wd kws) no_scope) as [[[r|x] safe]|] eqn:Ef.
+        + eapply steps_step; [exact S1|]. intros fu.
+          erewrite run_CallFunction by first [exact Hi2|exact Hs]. rewrite Ef. runpos.
+        + eapply steps_fail1; [exact S1|]. intros fu.
+          erewrite run_CallFunction by first [exact Hi2|exact Hs]. rewrite Ef. reflexivity.
+        + eapply steps_fail1; [exact S1|]. intros fu.
+          erewrite run_CallFunction by first [exact Hi2|exact Hs]. rewrite Ef. reflexivity.
+      - (* EArr: not covered *) cbn [wf_expr] in Hwf. discriminate.
+      - (* EMap: not covered *) cbn [wf_expr] in Hwf. discriminate.
     Qed.
 
 
@@ -1691,7 +1956,7 @@ Theorem compile_correct_world0 :
 Proof.
   intros lib name t cx glob w Hnd Hwf Hf wd.
   apply (compile_correct str wr_str (@app N) (fun _ _ => eq_refl) (fun w a b => eq_sym (app_assoc w a b))
-           (@app_nil_r N) wd (fun _ => eq_refl) (fun _ _ _ _ _ => eq_refl) lib name t cx glob w);
+           (@app_nil_r N) wd (fun _ => eq_refl) (fun _ _ _ _ _ => eq_refl) (fun _ _ _ _ => eq_refl) lib name t cx glob w);
     [|exact Hwf|exact Hf].
   apply world_has_of_map; [exact Hnd|reflexivity].
 Qed.
